@@ -18,6 +18,9 @@ Inductive case :=
 | CMatrix (ep : string) (auth : N) (st : store) (market caller : N) (obs : bool) (wrote : bool)
     (* endpoint request for [market] signed by [caller]; [st] = the grants read back from the
        real store before the call; wrote = the multistore differs after a REJECTED call *)
+| CCross (ep : string) (auth : N) (st : store) (req_market item_market caller : N) (changed : bool)
+    (* request naming [req_market] whose target item (order / commitment) belongs to
+       [item_market]; changed = the call went through and the item is different afterwards *)
 | CCancel (auth : N) (st : store) (o : order) (signer : N) (obs : bool) (still_there : bool)
 | CPayment (st : list payment) (op : pay_op) (obs : bool) (after : list payment)
 | CPayHist (st0 : list payment) (steps : list (pay_op * bool * list payment))
@@ -131,6 +134,11 @@ Definition check (c : case) : list string :=
       (if obs then tag (req_holds_b (documented_requirement ep) auth st market caller)
                        "prop:passed_without_documented_permission"
        else tag (negb wrote) "prop:rejected_call_wrote_state")
+  | CCross ep auth st req_market item_market caller changed =>
+      tag (Bool.eqb changed (item_changed ep auth st req_market item_market caller)) "corr:item_changed" ++
+      (if changed then tag (req_holds_b (documented_requirement ep) auth st item_market caller)
+                           "prop:item_of_market_changed_without_permission_on_that_market"
+       else [])
   | CCancel auth st o signer obs still_there =>
       tag (Bool.eqb obs (snd (cancel_order auth st [o] (o_id o) signer))) "corr:cancel_order" ++
       (if obs then
